@@ -141,6 +141,10 @@ def opts_for(r, op):
 def gen_c01(r):
     dt = r.choice(ALL_DTS)
     lens = rnd_lens(r, 9, 7)
+    if r.random() < 0.05:
+        lens = [r.randint(3, 9) for _ in range(r.randint(22, 32))]       # more than 127 cells: row lengths given in a narrow dtype must still add up
+    elif r.random() < 0.08:
+        lens = [r.randint(0, 1) for _ in range(r.randint(1, 9))]
     arr = rnd_arr(r, dt, lens)
     c = r.random()
     flat = [v for row in arr[1] for v in row]
@@ -176,7 +180,7 @@ def gen_c01(r):
     else:
         reader = [rk]
     o = opts_for(r, "readback")
-    o["lkind"] = r.choice(["list", "array", "tuple"])
+    o["lkind"] = r.choice(["list", "array", "tuple", "i1arr", "u2arr", "boolarr"])
     o["layout"] = r.choice(["C", "F", "T", "strided"])
     return ["readback", ctor, reader], o, True
 
